@@ -1,19 +1,30 @@
-import TracklibVerif.Model.Raster
+import TracklibVerif.Model.RasterSession
 import TracklibVerif.Drv.Util
 /-! Driver handler for C19. Scalars: mode `f` = IEEE bit patterns (model at `Float`), mode `q` = exact rationals
 (model at `Rat`). Commands:
 
-  sum <mode> <xs> <ys> <vals> <rx> <ry> <margin> <ops>
-      observations (x, y, value) in track order (`nan` allowed as a value), ops a word over
-      {c,s,m,M,a,d} = count, sum, min, max, avg, median
-      reply: `xmin xmax ymin ymax ncol nrow <col:line of every observation> <grids>` with grids = per operator
-      the rows joined by `;`, operators joined by `|` ; or `err:raised` when Python would raise
   cell <mode> <bx0> <bx1> <by0> <by1> <rx> <ry> <margin> <x> <y>
       the raster built on the bounding box [bx0,bx1]x[by0,by1]
       reply: `xmin xmax ymin ymax ncol nrow <col:line or none>`
   agg <mode> <vals> <ops>
       the cell operators applied to one list of values (`nan` allowed, `_` = empty list)
-      reply: one value per operator, `,`-separated, `nan` for NaN -/
+      reply: one value per operator, `,`-separated, `nan` for NaN
+  session <mode> <call> <call> …
+      a sequence of calls, each one token (fields separated by `:`), on the current raster object:
+        N:<bx0>:<bx1>:<by0>:<by1>:<rx>:<ry>:<margin>:<nodata>   Raster(Bbox, resolution, margin, novalue): new current raster
+        S:<afs>:<ops>:<rx>:<ry>:<margin>:<aforder>:<tracks>     summarize(collection, afs, ops, resolution, margin): its result
+                                                                 becomes the current raster (none when it raises / returns 0)
+        B:<name>  |  B:<name>:<grid>                            addAFMap(name[, grid]); name `v#co_sum`, `_` = the empty name; grid `~` = []
+        A:<aforder>:<tracks>                                     addCollectionToRaster; aforder = iteration order of the set of features
+        C                                                        computeAggregates
+        D:<value>                                                setNoDataValue (`None` allowed, as for <nodata> and the entries of a grid)
+      tracks = track|track…, track = uid@xs@ys@name=vals&name=vals (`_` for none); operators are the six co_* names or
+      a name starting with `undefined`
+      a call other than N / S without a current raster is answered `noraster!none`
+      reply: per call `outcome!xmin:xmax:ymin:ymax:ncol:nrow!nodata!bands!values!cells` (`outcome!none` without a current
+      raster), outcome = ok | zero | the exception; bands = name=grid&… (grid `E` while every cell is an empty list);
+      values = none | feature=rows;…&… with the cells of a row separated by `|`; cells = `col:line` of every
+      observation of the collection of an A / S call -/
 namespace TV.Drv.C19
 open TV.Raster TV.Drv
 
@@ -35,23 +46,6 @@ section generic
 variable {α : Type} [Add α] [Sub α] [Mul α] [Div α] [OfNat α 0] [OfNat α 1] [OfNat α 2] [IntCast α] [NatCast α]
   [LT α] [DecidableLT α] [LE α] [DecidableLE α] [BEq α]
 
-def runSum (floor ceil : α → Int) (noData : α) (rd : String → Option α) (sh : α → String)
-    (xs ys vals rx ry margin ops : String) : String :=
-  match (splitTok xs ',').mapM rd, (splitTok ys ',').mapM rd,
-        (splitTok vals ',').mapM (fun w => if w == "nan" then some none else (rd w).map some),
-        rd rx, rd ry, rd margin, ops.toList.mapM op? with
-  | some X, some Y, some V, some rx, some ry, some mg, some O =>
-    if X.length != Y.length || X.length != V.length || X.isEmpty then "bad-request"
-    else
-      let obs := X.zip (Y.zip V)
-      match summarize floor ceil noData obs rx ry mg O with
-      | none => "err:raised"
-      | some (g, grids) =>
-        let cells := showList (fun o : α × α × Option α => showCell (getCell floor g o.1 o.2.1)) obs
-        let gs := joinWith "|" (grids.map (showListList sh))
-        s!"{sh g.xmin} {sh g.xmax} {sh g.ymin} {sh g.ymax} {g.ncol} {g.nrow} {cells} {gs}"
-  | _, _, _, _, _, _, _ => "bad-request"
-
 def runCell (floor ceil : α → Int) (rd : String → Option α) (sh : α → String) (a : List String) : String :=
   match a.mapM rd with
   | some [bx0, bx1, by0, by1, rx, ry, mg, x, y] =>
@@ -63,13 +57,134 @@ def runAgg (rd : String → Option α) (sh : α → String) (vals ops : String) 
   match (splitTok vals ',').mapM (fun w => if w == "nan" then some none else (rd w).map some), ops.toList.mapM op? with
   | some V, some O => showList (fun op => match cellValue op V with | none => "nan" | some a => sh a) O
   | _, _ => "bad-request"
+
+def vals? (rd : String → Option α) (s : String) : Option (List (Option α)) :=
+  (splitTok s ',').mapM (fun w => if w == "nan" then some none else (rd w).map some)
+
+def feat? (rd : String → Option α) (s : String) : Option (String × List (Option α)) :=
+  match s.splitOn "=" with
+  | [n, vs] => (vals? rd vs).map (fun v => (n, v))
+  | _ => none
+
+def reservedFeat (n : String) : Bool := ["uid", "x", "y", "idx", "z", "t", "timestamp", ""].contains n
+
+def trk? (rd : String → Option α) (s : String) : Option (Trk α) :=
+  match s.splitOn "@" with
+  | [uid, xs, ys, fs] => do
+    let u ← rd uid
+    let X ← (splitTok xs ',').mapM rd
+    let Y ← (splitTok ys ',').mapM rd
+    let F ← (splitTok fs '&').mapM (feat? rd)
+    if X.length != Y.length || F.any (fun f => f.2.length != X.length || reservedFeat f.1)
+        || (F.map (·.1)).eraseDups.length != F.length then none
+    else some { uid := u, pts := X.zip Y, feats := F }
+  | _ => none
+
+def trks? (rd : String → Option α) (s : String) : Option (List (Trk α)) := (splitTok s '|').mapM (trk? rd)
+
+def knownOp (o : String) : Bool := (opOf o).isSome || o.startsWith "undefined"
+
+/-- a band name as the list of its `#`-separated parts; refused: unmodelled features and operators -/
+def name? (s : String) : Option (List String) :=
+  if s == "_" then some [""]
+  else
+    let parts := s.splitOn "#"
+    match parts with
+    | af :: rest =>
+      if ["z", "t", "timestamp"].contains af then none
+      else match rest with
+        | o :: _ => if knownOp o then some parts else none
+        | [] => some parts
+    | [] => none
+
+def showErr : Option Err → String
+  | none => "ok" | some .attr => "attr" | some .key => "key" | some .index => "index" | some .type => "type"
+  | some .name => "name" | some .wrongArg => "WrongArgumentError" | some .afError => "AnalyticalFeatureError"
+  | some .order => "order"
+
+/-- a scalar or Python's `None` -/
+def rdO (rd : String → Option α) (w : String) : Option (Option α) := if w == "None" then some none else (rd w).map some
+def shO (sh : α → String) : Option α → String
+  | none => "None"
+  | some a => sh a
+
+def showCells (sh : α → String) (c : Cells (Option α)) : String :=
+  joinWith ";" (c.map (fun row => joinWith "|" (row.map (fun cell => showList (fun v => match v with | none => "nan" | some a => sh a) cell))))
+
+def showState (sh : α → String) (s : RState α) : String :=
+  let g := s.g
+  let bands := joinWith "&" (s.bands.map (fun b => "#".intercalate b.name ++ "=" ++
+    (match b.grid with | none => "E" | some gr => showListList (shO sh) gr)))
+  let vals := match s.values with
+    | none => "none"
+    | some V => joinWith "&" (V.map (fun (e : String × Cells (Option α)) => e.1 ++ "=" ++ showCells sh e.2))
+  s!"{sh g.xmin}:{sh g.xmax}:{sh g.ymin}:{sh g.ymax}:{g.ncol}:{g.nrow}!{shO sh s.noData}!{bands}!{vals}"
+
+def showObsCells (floor : α → Int) (g : Grid α) (tracks : List (Trk α)) : String :=
+  showList (fun p : α × α => showCell (getCell floor g p.1 p.2)) (tracks.flatMap (·.pts))
+
+/-- one call of a session: new current raster and the reply, `none` = malformed -/
+def sessionStep (floor ceil : α → Int) (wr : α) (rd : String → Option α) (sh : α → String)
+    (cur : Option (RState α)) (tok : String) : Option (Option (RState α) × String) :=
+  let reply (e : String) (s : Option (RState α)) (cells : String) : Option (Option (RState α) × String) :=
+    match s with
+    | none => some (none, e ++ "!none")
+    | some st => some (some st, e ++ "!" ++ showState sh st ++ "!" ++ cells)
+  match tok.splitOn ":" with
+  | ["N", bx0, bx1, by0, by1, rx, ry, mg, nd] =>
+    match [bx0, bx1, by0, by1, rx, ry, mg].mapM rd, rdO rd nd with
+    | some [bx0, bx1, by0, by1, rx, ry, mg], some nd => reply "ok" (some (initState (mkGrid ceil bx0 bx1 by0 by1 rx ry mg) nd)) "_"
+    | _, _ => none
+  | ["S", afs, ops, rx, ry, mg, afo, tr] =>
+    match rd rx, rd ry, rd mg, trks? rd tr with
+    | some rx, some ry, some mg, some T =>
+      let afs := splitTok afs ','
+      let ops := splitTok ops ','
+      if ops.any (fun o => !knownOp o) || afs.any (fun a => ["z", "t", "timestamp", ""].contains a) then none
+      else match summarizeS floor ceil wr T afs ops rx ry mg (splitTok afo ',') with
+        | .raised .order => none
+        | .raised e => reply (showErr (some e)) none "_"
+        | .zero => reply "zero" none "_"
+        | .ok s => reply "ok" (some s) (showObsCells floor s.g T)
+    | _, _, _, _ => none
+  | _ =>
+    match cur with
+    | none => if ["B", "A", "C", "D"].contains ((tok.splitOn ":").headD "") then some (none, "noraster!none") else none
+    | some s =>
+      let fin (r : RState α × Option Err) (cells : String) : Option (Option (RState α) × String) :=
+        if r.2 == some .order then none else reply (showErr r.2) (some r.1) cells
+      match tok.splitOn ":" with
+      | ["B", nm] => (name? nm).bind (fun n => fin (step floor s (.band n none)) "_")
+      | ["B", nm, gr] =>
+        match name? nm, (if gr == "~" then some [] else (gr.splitOn ";").mapM (fun r => (splitTok r ',').mapM (rdO rd))) with
+        | some n, some G =>
+          if G.any (fun r => r.length != (G.headD []).length) then none     -- rectangular grids only
+          else fin (step floor s (.band n (some G))) "_"
+        | _, _ => none
+      | ["A", afo, tr] => (trks? rd tr).bind (fun T => fin (step floor s (.add (splitTok afo ',') T)) (showObsCells floor s.g T))
+      | ["C"] => fin (step floor s .compute) "_"
+      | ["D", v] => (rdO rd v).bind (fun v => fin (step floor s (.setNoData v)) "_")
+      | _ => none
+
+def runSession (floor ceil : α → Int) (wr : α) (rd : String → Option α) (sh : α → String) (toks : List String) : String :=
+  let rec go (cur : Option (RState α)) (toks : List String) (acc : List String) : Option (List String) :=
+    match toks with
+    | [] => some acc.reverse
+    | t :: rest =>
+      match sessionStep floor ceil wr rd sh cur t with
+      | none => none
+      | some (cur', r) => go cur' rest (r :: acc)
+  match go none toks [] with
+  | none => "bad-request"
+  | some rs => if rs.isEmpty then "bad-request" else " ".intercalate rs
+
 end generic
 
 def handle (cmd : String) (args : List String) : String :=
   match cmd, args with
-  | "sum", [mode, xs, ys, vals, rx, ry, margin, ops] =>
-    if mode == "f" then runSum fFloor fCeil (-99999.0 : Float) float? showFloat xs ys vals rx ry margin ops
-    else if mode == "q" then runSum Rat.floor Rat.ceil (-99999 : Rat) rat? showRat xs ys vals rx ry margin ops
+  | "session", mode :: toks =>
+    if mode == "f" then runSession fFloor fCeil (-99999.0 : Float) float? showFloat toks
+    else if mode == "q" then runSession Rat.floor Rat.ceil (-99999 : Rat) rat? showRat toks
     else "bad-request"
   | "agg", [mode, vals, ops] =>
     if mode == "f" then runAgg float? showFloat vals ops
